@@ -462,8 +462,39 @@ func (g *Gen) newRef(hint string) string {
 
 // ---------- type names ----------
 
+// unaliasDeep replaces declared type aliases (type A = pkg.T) by the aliased type, also below pointers, slices,
+// arrays, maps and channels: heap names are derived from type names, and one type must not get two heaps.
+func unaliasDeep(t types.Type) types.Type {
+	switch x := t.(type) {
+	case *types.Alias:
+		return unaliasDeep(types.Unalias(x))
+	case *types.Pointer:
+		if e := unaliasDeep(x.Elem()); e != x.Elem() {
+			return types.NewPointer(e)
+		}
+	case *types.Slice:
+		if e := unaliasDeep(x.Elem()); e != x.Elem() {
+			return types.NewSlice(e)
+		}
+	case *types.Array:
+		if e := unaliasDeep(x.Elem()); e != x.Elem() {
+			return types.NewArray(e, x.Len())
+		}
+	case *types.Map:
+		k, e := unaliasDeep(x.Key()), unaliasDeep(x.Elem())
+		if k != x.Key() || e != x.Elem() {
+			return types.NewMap(k, e)
+		}
+	case *types.Chan:
+		if e := unaliasDeep(x.Elem()); e != x.Elem() {
+			return types.NewChan(x.Dir(), e)
+		}
+	}
+	return t
+}
+
 func (g *Gen) typeName(t types.Type) string {
-	s := types.TypeString(t, func(p *types.Package) string { return p.Name() })
+	s := types.TypeString(unaliasDeep(t), func(p *types.Package) string { return p.Name() })
 	// heap names are derived from type names: the predeclared aliases must not yield separate heaps
 	if strings.Contains(s, "byte") || strings.Contains(s, "rune") || strings.Contains(s, "interface{}") {
 		s = aliasByte.ReplaceAllString(s, "uint8")
